@@ -141,6 +141,7 @@ class Machine:
         self.root = tempfile.mkdtemp(prefix='verif-c19-')
         self.fs = seams.SimFS()
         self.fs.write_through = True
+        self.fs.wrap_file_objects = True
         self.loaded = {}     # sid -> (object returned by load, snapshot at load time)
         self.copies = {}     # sid -> (detach/cpu/to result, its source, snapshot): metadata must stay independent
         self.objs = {}       # sid -> TT
